@@ -1,8 +1,10 @@
 #!/bin/bash
-# Build the whole harness offline from files on disk (first build ~2-4 min on 16 cores).
+# Build the whole harness offline from files on disk (first build ~3-5 min on 16 cores).
 set -e
-cd "$(dirname "$0")/harness"
+ROOT="$(cd "$(dirname "$0")" && pwd)"
 export CARGO_NET_OFFLINE=true
-cargo build --release --offline --workspace 2>&1 | tail -5
+cd "$ROOT/harness"
+cargo build --release --offline --workspace 2>&1 | tail -3
 # the 1 KiB-chunk build of vh-client (C14/C15)
-"$(dirname "$0")/harness/pre-C14.sh"
+"$ROOT/harness/pre-C14.sh"
+echo "setup done"
